@@ -177,15 +177,27 @@ def check_python_family(res, D, lang, code, path, cwd, token, stored, case, empt
                 out = ns['a'][:]
             elif lang == 'python':
                 native = stored.dtype.newbyteorder('=')
+                nat = stored.astype(native)
                 if stored.dtype.kind == 'c':
                     comp = {'complex64': 'float32', 'complex128': 'float64'}[stored.dtype.name]
                     re_, im_ = np.array(ns['real'], dtype=comp), np.array(ns['imag'], dtype=comp)
                     out = (re_ + 1j * im_).astype(native).astype(stored.dtype)
+                    exact = ns['real'].tolist() == nat.real.tolist() and ns['imag'].tolist() == nat.imag.tolist() \
+                        and ns['real'].typecode == ns['imag'].typecode == {'float32': 'f', 'float64': 'd'}[comp]
                 else:
                     out = np.array(val, dtype=native).astype(stored.dtype)
+                    # the Python numbers themselves must be the stored values (a wrong signedness would wrap
+                    # back unnoticed in a NumPy conversion), and the typecode must be of the stored kind
+                    exact = val.tolist() == nat.tolist() and (
+                        val.typecode.islower() == (stored.dtype.kind == 'i') if stored.dtype.kind in 'iu'
+                        else val.typecode == {'float32': 'f', 'float64': 'd'}[stored.dtype.name])
                 if len(val) != stored.size * (2 if stored.dtype.kind == 'c' else 1):
                     out = None
                     err = ValueError(f'array.array holds {len(val)} items')
+                elif not exact:
+                    out = None
+                    err = ValueError(f'array.array({val.typecode!r}) holds other numbers than the stored {stored.dtype.name} values: '
+                                     f'{val.tolist()[:4]} vs {nat.ravel().tolist()[:4]}')
             else:
                 out = np.array(val)
     finally:
